@@ -57,6 +57,14 @@ static const uint8_t CONmtModeObj[CO_MODE_NUM] = {
 *    This constant codes are used to encode the NMT state machine mode within
 *    heartbeat acc. the standard.
 */
+/*! \brief COMMUNICATION OBJECTS WITH TIMER SERVICES
+*
+*    This constant codes the object entries, which start their services
+*    (SYNC, heartbeat consumer, heartbeat producer) during initialization.
+*    The order is the order of the object initialization at node start.
+*/
+static const uint16_t CONmtResetObj[3] = { 0x1005, 0x1016, 0x1017 };
+
 static const uint8_t CONmtModeCode[CO_MODE_NUM] = {
     255,                         /*!< encoding for invalid mode              */
     0,                           /*!< encoding for initialization mode       */
@@ -72,7 +80,9 @@ static const uint8_t CONmtModeCode[CO_MODE_NUM] = {
 void CONmtReset(CO_NMT *nmt, CO_NMT_RESET type)
 {
     CO_OBJ *store;
+    CO_OBJ *obj;
     uint8_t nobootup = 1;
+    uint8_t n;
     CO_ERR  err;
 
     ASSERT_PTR_FATAL(nmt);
@@ -102,6 +112,8 @@ void CONmtReset(CO_NMT *nmt, CO_NMT_RESET type)
             }
         }
 
+        /* stop all timers of the communication services */
+        COTmrClear(&nmt->Node->Tmr);
 #if USE_LSS
         err = COLssLoad(&nmt->Node->Baudrate, &nmt->Node->NodeId);
         if (err != CO_ERR_NONE) {
@@ -109,12 +121,27 @@ void CONmtReset(CO_NMT *nmt, CO_NMT_RESET type)
         }
         COLssInit(&nmt->Node->Lss, nmt->Node);
 #endif //USE_LSS
-        COTmrClear(&nmt->Node->Tmr);
         CONmtInit(nmt, nmt->Node);
         COSdoInit(nmt->Node->Sdo, nmt->Node);
+#if USE_CSDO
+        COCSdoInit(nmt->Node->CSdo, nmt->Node);
+#endif
         COIfCanReset(&nmt->Node->If);
         COEmcyReset(&nmt->Node->Emcy, 1);
         COSyncInit(&nmt->Node->Sync, nmt->Node);
+
+        /* restart heartbeat consumers, heartbeat producer and SYNC
+         * as configured in the object dictionary
+         */
+        for (n = 0; n < 3u; n++) {
+            obj = CODictFind(&(nmt->Node->Dict), CO_DEV(CONmtResetObj[n], 0));
+            if (obj != NULL) {
+                err = COObjInit(obj, nmt->Node);
+                if (err != CO_ERR_NONE) {
+                    nmt->Node->Error = CO_ERR_OBJ_INIT;
+                }
+            }
+        }
         if (nobootup == 0) {
             CONmtBootup(nmt);
         }
